@@ -863,3 +863,150 @@ Proof.
   rewrite e_route_set_route, first_seg_route_code, G.
   rewrite set_route_set_route, strip_route_code by exact H. rewrite set_route_same. reflexivity.
 Qed.
+
+(* ---------- the whole start/stop log of a sink ---------- *)
+(* the startTestRun/stopTestRun calls sink s receives at the call o made after the calls past *)
+Definition ss_at (i : input) (s : sink) (past : list op) (o : op) : list call :=
+  match o with
+  | Start => if memb s (registered i past) then [StartRun] else []
+  | Stop => if memb s (registered i past) then [StopRun] else []
+  | AddPrefix s' _ _ ss | AddId s' _ ss => if Nat.eqb s' s && ss && in_run past then [StartRun] else []
+  | Status _ _ => []
+  end.
+
+Fixpoint ss_expected (i : input) (s : sink) (past l : list op) : list call :=
+  match l with
+  | [] => []
+  | o :: r => ss_at i s past o ++ ss_expected i s (past ++ [o]) r
+  end.
+
+Lemma step_ss i past o so s :
+  Step_spec i past o so -> count s (registered i past) <= 1 -> s < n_sinks i ->
+  filter is_start_stop (nth s (s_new so) []) = ss_at i s past o.
+Proof.
+  intros HS Hc Hs. destruct (count_memb s _ Hc) as [C1 C2].
+  assert (Hadd : forall s' ss, s_raised so = false /\
+                   New_is (n_sinks i) (if ss && in_run past then only s' StartRun else nobody) (s_new so) ->
+                 filter is_start_stop (nth s (s_new so) []) = if Nat.eqb s' s && ss && in_run past then [StartRun] else []).
+  { intros s' ss [_ [_ HN]]. rewrite (HN s Hs). rewrite (Nat.eqb_sym s' s), <- andb_assoc.
+    destruct (ss && in_run past); [|rewrite andb_false_r; reflexivity].
+    rewrite andb_true_r. unfold only. destruct (Nat.eqb s s'); reflexivity. }
+  destruct o as [s' p c ss | s' t ss | | | via e]; simpl in HS; simpl ss_at.
+  - apply Hadd. exact HS.
+  - apply Hadd. exact HS.
+  - destruct HS as [_ [_ HN]]. rewrite (HN s Hs), C1. destruct (memb s (registered i past)); reflexivity.
+  - destruct HS as [_ [_ HN]]. rewrite (HN s Hs), C2. destruct (memb s (registered i past)); reflexivity.
+  - eapply status_spec_no_start_stop; [exact HS | exact Hs].
+Qed.
+
+Lemma registered_app_count i s past l :
+  count s (registered i past) <= count s (registered i (past ++ l)).
+Proof. unfold registered. rewrite flat_map_app, !count_app. lia. Qed.
+
+Lemma ss_log_expected i s : s < n_sinks i -> forall l past os,
+  steps_okb i past l os = true -> count s (registered i (past ++ l)) <= 1 ->
+  ss_log s os = ss_expected i s past l.
+Proof.
+  intro Hs. induction l as [|o l IH]; intros past [|so os]; simpl; try discriminate; [reflexivity|].
+  rewrite andb_true_iff. intros [H1 H2] Hc. f_equal.
+  - apply step_ss; [apply step_okb_sound; exact H1 | | exact Hs].
+    etransitivity; [apply (registered_app_count i s past (o :: l)) | exact Hc].
+  - apply IH; [exact H2|]. rewrite <- app_assoc. exact Hc.
+Qed.
+
+(* not registered (yet): nothing *)
+Lemma ss_expected_unregistered i s : forall l past,
+  count s (registered i (past ++ l)) = 0 -> ss_expected i s past l = [].
+Proof.
+  induction l as [|o l IH]; intros past Hc; [reflexivity|]. simpl.
+  assert (H0 : count s (registered i past) = 0).
+  { pose proof (registered_app_count i s past (o :: l)). lia. }
+  assert (Hm : memb s (registered i past) = false).
+  { destruct (memb s (registered i past)) eqn:M; [|reflexivity].
+    apply existsb_exists in M as [x [Hx E]]. apply Nat.eqb_eq in E. subst x.
+    apply (count_occ_In Nat.eq_dec) in Hx. unfold count in H0. lia. }
+  rewrite IH by (rewrite <- app_assoc; exact Hc). rewrite app_nil_r.
+  assert (Hreg : count s (registration o) = 0).
+  { replace (past ++ o :: l) with ((past ++ [o]) ++ l) in Hc by (rewrite <- app_assoc; reflexivity).
+    pose proof (registered_app_count i s (past ++ [o]) l). rewrite registered_snoc, count_app in H. lia. }
+  destruct o as [s' p c ss | s' t ss | | | via e]; simpl; rewrite ?Hm; try reflexivity.
+  - destruct (Nat.eqb s' s) eqn:E; [|reflexivity]. apply Nat.eqb_eq in E. subst s'.
+    destruct ss; [|reflexivity]. simpl in Hreg. destruct (Nat.eq_dec s s); [discriminate|contradiction].
+  - destruct (Nat.eqb s' s) eqn:E; [|reflexivity]. apply Nat.eqb_eq in E. subst s'.
+    destruct ss; [|reflexivity]. simpl in Hreg. destruct (Nat.eq_dec s s); [discriminate|contradiction].
+Qed.
+
+(* registered, and not registered again: every startTestRun and stopTestRun of the caller, in order *)
+Lemma ss_expected_registered i s : forall l past,
+  memb s (registered i past) = true -> count s (flat_map registration l) = 0 ->
+  ss_expected i s past l = flat_map ss_of_op l.
+Proof.
+  induction l as [|o l IH]; intros past Hm Hc; [reflexivity|]. simpl in *. rewrite count_app in Hc.
+  rewrite IH; [| |lia].
+  - f_equal. destruct o as [s' p c ss | s' t ss | | | via e]; simpl; rewrite ?Hm; try reflexivity.
+    + destruct (Nat.eqb s' s) eqn:E; [|reflexivity]. apply Nat.eqb_eq in E. subst s'.
+      destruct ss; [|reflexivity]. simpl in Hc. destruct (Nat.eq_dec s s); [lia|contradiction].
+    + destruct (Nat.eqb s' s) eqn:E; [|reflexivity]. apply Nat.eqb_eq in E. subst s'.
+      destruct ss; [|reflexivity]. simpl in Hc. destruct (Nat.eq_dec s s); [lia|contradiction].
+  - apply existsb_exists in Hm as [x [Hx E]]. apply existsb_exists. exists x. split; [|exact E].
+    rewrite registered_snoc. apply in_or_app. left; exact Hx.
+Qed.
+
+Lemma ss_expected_app i s : forall l1 past l2,
+  ss_expected i s past (l1 ++ l2) = ss_expected i s past l1 ++ ss_expected i s (past ++ l1) l2.
+Proof.
+  induction l1 as [|o l1 IH]; intros past l2; simpl; [rewrite app_nil_r; reflexivity|].
+  rewrite IH, <- !app_assoc. reflexivity.
+Qed.
+
+Lemma count_le1_split s (a b : list sink) : count s (a ++ b) <= 1 -> count s a = 1 -> count s b = 0.
+Proof. rewrite count_app. lia. Qed.
+
+Theorem start_stop_log i : wf i -> wf_distinct i -> forall s, s < n_sinks i ->
+  let log := ss_log s (o_steps (model i)) in
+  (* never registered for start/stop: neither is ever received *)
+  (count s (registered i (ops i)) = 0 -> log = [])
+  (* the fallback of a router built with do_start_stop_run: every start and stop, once, in order *)
+  /\ (fb i = Some s -> fb_ss i = true -> log = flat_map ss_of_op (ops i))
+  (* registered by the k-th call: startTestRun at once if a run is in progress, then every later start and stop *)
+  /\ (forall k o, nth_error (ops i) k = Some o -> In s (registration o) ->
+        log = (if in_run (firstn k (ops i)) then [StartRun] else []) ++ flat_map ss_of_op (skipn (S k) (ops i))).
+Proof.
+  intros Hwf Hd s Hs log.
+  assert (Hc : count s (registered i (ops i)) <= 1).
+  { unfold wf_distinct, wf_distinctb in Hd. apply andb_true_iff in Hd as [Hd _]. apply andb_true_iff in Hd as [Hd _].
+    apply (nodupb_NoDup _ Nat.eqb_eq) in Hd.
+    rewrite <- (firstn_all (ops i)). etransitivity; [apply registered_count_le|].
+    apply (NoDup_count_occ Nat.eq_dec). exact Hd. }
+  assert (Hlog : log = ss_expected i s [] (ops i)).
+  { unfold log. apply ss_log_expected; [exact Hs | | exact Hc].
+    pose proof (model_meets_spec i Hwf) as H. unfold spec_okb in H. apply andb_true_iff in H as [H _]. exact H. }
+  rewrite Hlog. clear Hlog log. split; [|split].
+  - intro H0. apply ss_expected_unregistered. exact H0.
+  - intros Hf Hss. apply ss_expected_registered.
+    + unfold registered. rewrite Hf, Hss. simpl. rewrite Nat.eqb_refl. reflexivity.
+    + unfold registered in Hc. rewrite Hf, Hss, count_app in Hc. simpl in Hc.
+      destruct (Nat.eq_dec s s); [lia|contradiction].
+  - intros k o Ho Hin.
+    assert (Hsplit : ops i = firstn k (ops i) ++ o :: skipn (S k) (ops i)).
+    { clear -Ho. revert k Ho. generalize (ops i). induction l as [|x l IH]; intros [|k] Ho; simpl in *; try discriminate.
+      - injection Ho as ->. reflexivity.
+      - f_equal. apply IH. exact Ho. }
+    set (pre := firstn k (ops i)) in *. set (post := skipn (S k) (ops i)) in *.
+    assert (Hreg1 : count s (registration o) = 1).
+    { destruct o as [s' p c [|]|s' t [|]| | |]; simpl in Hin; try contradiction;
+        destruct Hin as [->|[]]; simpl; destruct (Nat.eq_dec s s); try reflexivity; contradiction. }
+    assert (Hcnt : count s (registered i pre) = 0 /\ count s (flat_map registration post) = 0).
+    { rewrite Hsplit in Hc. unfold registered in Hc |- *. rewrite flat_map_app in Hc. simpl in Hc.
+      rewrite !count_app in Hc. rewrite count_app. lia. }
+    destruct Hcnt as [Hpre Hpost].
+    rewrite Hsplit at 1. rewrite ss_expected_app.
+    rewrite (ss_expected_unregistered i s pre []) by exact Hpre.
+    simpl. rewrite ss_expected_registered; [| |exact Hpost].
+    + f_equal.
+      destruct o as [s' p c [|]|s' t [|]| | |]; simpl in Hin; try contradiction;
+        destruct Hin as [->|[]]; simpl; rewrite Nat.eqb_refl; reflexivity.
+    + apply existsb_exists. exists s. split; [|apply Nat.eqb_refl].
+      rewrite registered_snoc. apply in_or_app. right.
+      destruct o as [s' p c [|]|s' t [|]| | |]; simpl in Hin |- *; try contradiction; exact Hin.
+Qed.
